@@ -701,8 +701,15 @@ func freshLocals(info *types.Info, body *ast.BlockStmt) map[types.Object]token.P
 }
 
 func main() {
+	if len(os.Args) >= 4 && os.Args[1] == "shape" {
+		if err := shapeMain(os.Args[2], os.Args[3]); err != nil {
+			fmt.Fprintln(os.Stderr, "shape:", err)
+			os.Exit(1)
+		}
+		return
+	}
 	if len(os.Args) < 4 || os.Args[1] != "access" {
-		fmt.Fprintln(os.Stderr, "usage: verifxlate access <repo-root> <out.json>")
+		fmt.Fprintln(os.Stderr, "usage: verifxlate access|shape <repo-root> <out.json>")
 		os.Exit(2)
 	}
 	repoRoot, _ = filepath.Abs(os.Args[2])
